@@ -489,7 +489,15 @@ func famCli(tr *Trace, id *int, scratch, bin, behaviours string) int {
 		Materialise(root, nodes)
 		y := c.YAML(root)
 		cfgPath := filepath.Join(work, "nfpm.yaml")
-		must(os.WriteFile(cfgPath, []byte(y), 0o644))
+		// the file the tool reads spells some values as references to the environment it is started in (a documented
+		// expandable field, a relation, a content source that opts in); the reference build below uses the literal values
+		yCli := strings.Replace(y, "version: \"1.2.3\"", "version: \"${VERIF_CLI_VERSION}\"", 1)
+		yCli = strings.Replace(yCli, "- \"base-dep\"", "- \"${VERIF_CLI_DEP}\"", 1)
+		yCli = strings.Replace(yCli, "  - src: "+yq(root+"/src/bin")+"\n", "  - src: \"${VERIF_CLI_ROOT}/src/bin\"\n    expand: true\n", 1)
+		if yCli == y || !strings.Contains(yCli, "VERIF_CLI_ROOT") || !strings.Contains(yCli, "VERIF_CLI_DEP") {
+			panic("famCli: the configuration no longer has the values the environment references replace")
+		}
+		must(os.WriteFile(cfgPath, []byte(yCli), 0o644))
 		// the reference bytes: a library build of the same configuration
 		var ref bytes.Buffer
 		refErr := packageWith(y, f, &ref)
@@ -529,7 +537,7 @@ func famCli(tr *Trace, id *int, scratch, bin, behaviours string) int {
 		case "missing_source":
 			os.Remove(filepath.Join(root, "src/app.conf"))
 		case "bad_config":
-			must(os.WriteFile(cfgPath, []byte(y+"unknown_key: 1\n"), 0o644))
+			must(os.WriteFile(cfgPath, []byte(yCli+"unknown_key: 1\n"), 0o644))
 		}
 		args := []string{"package", "-f", cfgPath}
 		if target != "" {
@@ -541,7 +549,7 @@ func famCli(tr *Trace, id *int, scratch, bin, behaviours string) int {
 		t0 := time.Now()
 		cmd := exec.Command(bin, args...)
 		cmd.Dir = cwd
-		cmd.Env = append(os.Environ(), "TZ=UTC")
+		cmd.Env = append(os.Environ(), "TZ=UTC", "VERIF_CLI_VERSION=1.2.3", "VERIF_CLI_DEP=base-dep", "VERIF_CLI_ROOT="+root)
 		var so, se bytes.Buffer
 		cmd.Stdout, cmd.Stderr = &so, &se
 		err := cmd.Run()
